@@ -219,4 +219,30 @@ func H_reuse(v *zzverif.T) {
 	r4 := zzApplyOn(v, used, shared)
 	r5 := zzApplyOn(v, used, shared)
 	same("same-objects-twice", r5, r4)
+	// ... and again with ONE operand exchanged for another tensor of the same shape (other values) while the
+	// others stay the very same objects, resp. with the last operand left out: what an instance derives from
+	// its operands is a function of all of them, not of the identity of some
+	for k := range db {
+		if db[k].absent || db[k].kind == "i64" {
+			continue
+		}
+		other := db[k]
+		tag := "c" + string(rune('0'+k)) + "_"
+		switch other.kind {
+		case "f32":
+			other.f = zzverif.Syms[float32](v, tag, len(other.f))
+		case "f64":
+			other.d = zzverif.Syms[float64](v, tag, len(other.d))
+		case "bool":
+			other.b = zzverif.Syms[bool](v, tag, len(other.b))
+		}
+		mixed := append([]tensor.Tensor(nil), shared...)
+		mixed[k] = other.tensor()
+		priv := append([]zzRData(nil), db...)
+		priv[k] = other
+		same("one-operand-exchanged", zzApplyOn(v, used, mixed), fresh(priv))
+	}
+	if n := len(db); n > 2 && !db[n-1].absent {
+		same("last-operand-left-out", zzApplyOn(v, used, shared[:n-1]), fresh(db[:n-1]))
+	}
 }
